@@ -434,8 +434,15 @@ func (br *xmpReader) readSeqTags(xmp *XMP, parent Tag) (err error) {
 				}
 			}
 
+			// the members of a container are its rdf:li elements: any other
+			// start tag in it (the content of a structured item, or a
+			// malformed tag of a few bytes) is not a list item
+			item := tag.Is(xmpns.RDFLi)
 			if tag.val, err = br.readTagValue(); err != nil {
 				return
+			}
+			if !item {
+				continue
 			}
 			tag.self = parent.parent
 			tag.parent = parent.self
